@@ -27,7 +27,7 @@ import numpy as np
 from .. import common as C
 
 PROP = "C17"
-GEN_REGIONS: List[str] = ["Noise", "NoiseGens"]
+GEN_REGIONS: List[str] = ["Noise", "NoiseGens", "GlobalState"]
 THEOREMS = {
     "SpecKitV.Lemmas.Chunking": [
         "Model.sectionRun_append", "Model.sectionRun_length", "Model.sectionRun_nil",
@@ -47,6 +47,9 @@ THEOREMS = {
         "gen_alpha_get_series_eq_model", "gen_alpha_chunking", "gen_alpha_get_sample_eq_model", "gen_alpha_settle_eq_model",
         "gen_alpha_obj_init_eq_model", "gen_alpha_requests_eq_model", "gen_pink_init_eq", "gen_alpha_stream_chunking",
         "gen_same_seed_same_stream"],
+    # no state outlives a call in the files this property is anchored in (no module/class-level containers, memoisers, mutable defaults) and the
+    # decorators are exactly the audited ones (region GlobalState, re-scanned from the current source each run)
+    "SpecKitV.Props.GlobalStateGen": ["GlobalStateGen.gen_globalState_noise"],
 }
 CONTRACTS = [
     "numpy Generator.normal(0, rms, n) returns rms * (the next n standard-normal draws), draw for draw, independent of how the "
